@@ -45,8 +45,9 @@ def make_check(max_choices, **run_kw):
 
 
 def _strategy():
-    return st.one_of(gp.programs(), gp.programs(), gp.programs(),
-                     gp.programs(share_bias=True, max_preds=3)).map(lambda p: {"prog": p})
+    return st.one_of(gp.programs(), gp.programs(), gp.programs(), gp.programs(), gp.programs(), gp.programs(),
+                     gp.programs(share_bias=True, max_preds=3), gp.programs(share_bias=True, max_preds=3),
+                     gp.dense_cycles()).map(lambda p: {"prog": p})
 
 
 def render(case):
